@@ -35,9 +35,8 @@ structure CryptoOK (a : AlgoParams) (cS cR : Crypto) : Prop where
 /-- `instance.maxBodySize` after `SetMaximumBodySize(chunkSize)` -/
 def maxBody (a : AlgoParams) (cs : Int) : Nat := (Gen.setMaximumBodySize a cs).toNat
 
-/-- the invariant of `instance.sequenceNumber`: it starts at 0 (client) or
-    1..1023 (server, `channelBroker.RegisterConn`) and `nextSequenceNumber`
-    keeps it in this range -/
+/-- `instance.sequenceNumber` is a `uint32`: that is all the round trip needs
+    since `mergeChunks` keeps the first chunk unconditionally -/
 abbrev SeqInv := Chunk.SeqInv
 
 theorem maxBody_pos (a : AlgoParams) (ha : a ∈ Gen.symmetricRows) (cs : Int) (h : 8192 ≤ cs)
@@ -54,13 +53,15 @@ theorem paired_of_row (a : AlgoParams) (ha : a ∈ Gen.symmetricRows) (m : Mode)
   simp [Gen.symAes128_Sha256_RsaOaep, Gen.symAes256_Sha256_RsaPss, Gen.symBasic128Rsa15, Gen.symBasic256,
     Gen.symBasic256Sha256, Gen.symNone]
 
-/-- the invariant is an invariant: preserved by `nextSequenceNumber`, whose
-    results are ≥ 1 and never repeat the previous number -/
-theorem C07_seq_invariant (seq : Int) (h : SeqInv seq) :
-    SeqInv (Gen.nextSequenceNumber seq).1 ∧ 1 ≤ (Gen.nextSequenceNumber seq).2 ∧
+/-- `nextSequenceNumber` returns a `uint32` and never the number it started
+    from — for EVERY counter value, also across the wrap-around (…→ 1) and from
+    2^32-1 (→ 0): consecutive chunks of one message never share a number, which
+    is what `mergeChunks`' duplicate detection relies on -/
+theorem C07_seq_distinct (seq : Int) (h : SeqInv seq) :
+    SeqInv (Gen.nextSequenceNumber seq).1 ∧ (Gen.nextSequenceNumber seq).2 = (Gen.nextSequenceNumber seq).1 ∧
     (Gen.nextSequenceNumber seq).2 ≠ seq :=
   have := next_inv seq h
-  ⟨this.1, this.2.1 ▸ this.2.2.1, this.2.1 ▸ this.2.2.2⟩
+  ⟨this.1, this.2.1, this.2.1 ▸ this.2.2⟩
 
 /-- ROUND TRIP.  The chunks the sender writes for a `MSG` message
     (`newMessage` + `EncodeChunks` + send loop with sequence-number fix-up +
@@ -71,16 +72,17 @@ theorem C07_seq_invariant (seq : Int) (h : SeqInv seq) :
     left in the chunk table.  Hypotheses: the receiver's newest instance for the
     channel id is the matching one; its table has no pending chunks for this
     request id; the message respects the receiver's `MaxChunkCount` (counted on
-    the intermediate chunks, as `Receive` does) and `MaxMessageSize`; the
-    sender's counter satisfies its invariant (see `C07_seq_invariant`,
-    `C07_seq_hypothesis_needed`). -/
+    the intermediate chunks, as `Receive` does) and `MaxMessageSize` where these
+    are not 0 (= no limit).  The sender's counter may be ANY `uint32`
+    (`C07_seq_distinct`; `C07_counter_zero_ok` shows the former problem case). -/
 theorem C07_roundtrip (a : AlgoParams) (ha : a ∈ Gen.symmetricRows) (m : Mode) (pS pR : Bool)
     (cS cR : Crypto) (hc : CryptoOK a cS cR) (cs : Int) (h : 8192 ≤ cs) (hcs : cs < 4294967296)
     (insts : Nat → List Side) (lim : Limits) (chan tok req : Nat) (hchan : chan < 4294967296)
     (hreq : req < 4294967296) (hi : ∃ rest, (insts chan).reverse = ⟨m, pR, a, cR⟩ :: rest)
     (seq : Int) (hseq : SeqInv seq) (body : Bytes) (hb : body.length < 4294967296)
     (t : Table) (ht : t req = [])
-    (hcount : body.length / maxBody a cs ≤ lim.maxChunkCount) (hsize : body.length ≤ lim.maxMessageSize) :
+    (hcount : lim.maxChunkCount = 0 ∨ body.length / maxBody a cs ≤ lim.maxChunkCount)
+    (hsize : lim.maxMessageSize = 0 ∨ body.length ≤ lim.maxMessageSize) :
     ∃ ws seq', sendMessage ⟨m, pS, a, cS⟩ (maxBody a cs) seq typeMSG chan tok req body = (seq', .ok ws) ∧
       SeqInv seq' ∧
       receiveAll insts lim t ws = (t.set req [], some (.ok ⟨req, chan, body⟩), []) := by
@@ -210,24 +212,30 @@ theorem C07_opn_roundtrip (ls rs pad : Nat) (hpad : pad < rs) (hrs : rs ≤ 6553
   rw [u32At_append_left _ _ _ (by omega), u32At_putU32 _ _ _ (by simp [List.length_take]; omega)]
   simp only [List.length_append, hH]
 
-/-! ### the hypothesis on the sequence counter is needed -/
+/-! ### the sequence counter: no hypothesis beyond `uint32` -/
 
 /-- a null cipher: mode None needs none of the primitives -/
 def nullCrypto : Crypto := { enc := some, dec := some, sign := fun _ => some [], verify := fun _ _ => true }
 
 def nullSide : Side := ⟨.none, true, Gen.symNone, nullCrypto⟩
 
-/-- With the counter at 2^32-1 (outside the invariant; no constructor or
-    `nextSequenceNumber` produces it) the first chunk gets sequence number 0,
-    which `mergeChunks` takes for a duplicate of its initial `seqnr = 0`: a
-    two-chunk message is reassembled WITHOUT its first chunk.  So `SeqInv` in
-    `C07_roundtrip` cannot be dropped. -/
-theorem C07_seq_hypothesis_needed :
+/-- The former problem case, by evaluation: with the counter at 2^32-1 the first
+    chunk gets sequence number 0.  Before the fix dea8d35 `mergeChunks` took it for
+    a duplicate of its initial `seqnr = 0` and dropped it; now the first chunk is
+    kept unconditionally and the two-chunk message comes back complete (also
+    with no limits configured: `MaxChunkCount = MaxMessageSize = 0`). -/
+theorem C07_counter_zero_ok :
     ∃ ws, sendMessage nullSide 4 4294967295 typeMSG 1 1 1 [1, 2, 3, 4, 5] = (1, .ok ws) ∧
-      (receiveAll (fun _ => [nullSide]) ⟨10, 1000⟩ (fun _ => []) ws).2 =
-        (some (.ok ⟨1, 1, [5]⟩), []) := by
+      (receiveAll (fun _ => [nullSide]) ⟨0, 0⟩ (fun _ => []) ws).2 =
+        (some (.ok ⟨1, 1, [1, 2, 3, 4, 5]⟩), []) := by
   refine ⟨_, rfl, ?_⟩
   decide
+
+/-- what the duplicate detection still does: a chunk that repeats the number of
+    its predecessor is skipped (only the sender's distinct numbers make this
+    harmless, `C07_seq_distinct`) -/
+theorem C07_duplicate_number_skipped :
+    mergeChunks [⟨chunkC, 1, 7, 1, [1]⟩, ⟨chunkC, 1, 7, 1, [2]⟩, ⟨chunkF, 1, 8, 1, [3]⟩] = [1, 3] := by decide
 
 /-- non-vacuity: a `CryptoOK` instance exists for the null row, and the
     theorem's conclusion is an actual computation there: 9 bytes with
